@@ -19,7 +19,7 @@ RULE = ("key sets of 1-6 generated keys (1-4 keys of the algorithm's key type, a
         "but labelled with the kid (must fail); unknown kid must raise InvalidKeyIdError; absent kid accepted iff the set holds one key; after a first use the named key is taken out of the long-lived set and the same token must then fail with InvalidKeyIdError. "
         "produce (JWS also through joserfc.rfc7797 with b64=false): with kid - the reference verifies/decrypts with that key and with no other; without kid - the header gains a kid of "
         "the set whose key has the algorithm's type, and the public key set consumes the token. import_key_set(as_dict()) preserves the "
-        "multiset of (kid, public numbers). non-trivial: set size >= 3 with >= 2 keys of the needed type; distinct = (op, alg, ser, kid "
+        "multiset of (kid, public numbers). Key objects are also made the way applications do: one parameters dict object for every key (read from PEM), key.kid read before the set is built. non-trivial: set size >= 3 with >= 2 keys of the needed type; distinct = (op, alg, ser, kid "
         "state, position, key mode, set shape).")
 ASSUMPTIONS = ["the empty string as kid is DONT_CARE on the producing side (treated as absent by the library)",
                "kids are duplicate-free by construction"]
